@@ -196,7 +196,11 @@ def focused_program(draw):
         handler = draw(gen.body(env, 0, 1, 2, allow_terminal=False))
     reasons = draw(st.sampled_from([None, ("outofspace",), ("nomatch",), ("nomatch", "outofspace")]))
     stmts = [("try", reasons, inner, handler)]
-    if draw(st.booleans()):
+    plain = draw(st.integers(0, 3)) == 0
+    if plain:
+        # no handler at all: the loop body is just the case below (plus whatever trails it)
+        stmts = []
+    if plain or draw(st.booleans()):
         stmts.append(("case", False, (((("lit", b";", "str"),), None, ()), (("else",), None, (("break", None),)))))
         if draw(st.booleans()):
             # an action behind the case: it lands behind the break on the else transition
